@@ -1,8 +1,9 @@
 import SaphyrVerif.Lemmas.C13_Read
 /-!
 C13 proof machinery, part 3c: the text of a layout splits back into its lines (`toLines ∘ renderLines`),
-no line of the fragment is a document marker, a directive, a comment or blank; the `%YAML 1.2` / `---`
-prologue in front of the lines (`readDoc_of_lines_pro`).
+no structure line of the fragment (`GoodLine`) is a document marker, a directive, a comment or blank, the body
+lines of block scalars (`BodyLine`) are indented; the `%YAML 1.2` / `---` prologue in front of the lines
+(`readDoc_of_lines_pro`).
 -/
 set_option linter.unusedSimpArgs false
 set_option linter.unusedVariables false
@@ -35,21 +36,44 @@ theorem lineChar_ne {c : Char} (h : lineChar c = true) : c ≠ '\n' ∧ c ≠ '\
 /-! ### all characters of the layout are line characters, all lines are good -/
 
 def AllLay (h : List Char) : Prop := ∀ x ∈ h, lineChar x = true
-def AllGood (ls : List Line) : Prop := ∀ l ∈ ls, GoodLine l
+
+/-- a line of a layout: a structure line (`GoodLine`) or a body line of a block scalar -/
+def LayLine (l : Line) : Prop := GoodLine l ∨ BodyLine l
+
+/-- every line satisfies `Q` (`Q` = `GoodLine`: layouts without block scalars; `Q` = `LayLine`: all layouts) -/
+def AllQ (Q : Line → Prop) (ls : List Line) : Prop := ∀ l ∈ ls, Q l
+/-- every line is a structure line or a body line of a block scalar -/
+abbrev AllGood (ls : List Line) : Prop := AllQ LayLine ls
 
 theorem AllLay.append {a b : List Char} (ha : AllLay a) (hb : AllLay b) : AllLay (a ++ b) := by
   intro x hx; rcases List.mem_append.mp hx with h | h
   · exact ha x h
   · exact hb x h
-theorem AllGood.append {a b : List Line} (ha : AllGood a) (hb : AllGood b) : AllGood (a ++ b) := by
+theorem AllQ.append {Q : Line → Prop} {a b : List Line} (ha : AllQ Q a) (hb : AllQ Q b) : AllQ Q (a ++ b) := by
   intro x hx; rcases List.mem_append.mp hx with h | h
   · exact ha x h
   · exact hb x h
-theorem AllGood.cons {l : Line} {ls : List Line} (hl : GoodLine l) (hs : AllGood ls) : AllGood (l :: ls) := by
+theorem AllQ.cons {Q : Line → Prop} {l : Line} {ls : List Line} (hl : Q l) (hs : AllQ Q ls) : AllQ Q (l :: ls) := by
   intro x hx; rcases List.mem_cons.mp hx with rfl | h
   · exact hl
   · exact hs x h
-theorem allGood_nil : AllGood [] := fun _ h => absurd h (by simp)
+theorem allQ_nil {Q : Line → Prop} : AllQ Q [] := fun _ h => absurd h (by simp)
+theorem AllQ.mono {Q Q' : Line → Prop} (h : ∀ l, Q l → Q' l) {ls : List Line} (hs : AllQ Q ls) : AllQ Q' ls :=
+  fun l hl => h l (hs l hl)
+theorem AllGood.append {a b : List Line} (ha : AllGood a) (hb : AllGood b) : AllGood (a ++ b) := AllQ.append ha hb
+theorem AllGood.cons {l : Line} {ls : List Line} (hl : GoodLine l) (hs : AllGood ls) : AllGood (l :: ls) :=
+  AllQ.cons (Or.inl hl) hs
+theorem allGood_nil : AllGood [] := allQ_nil
+/-- body lines of a block scalar -/
+theorem AllGood.ofBody {ls : List Line} (h : ∀ l ∈ ls, BodyLine l) : AllGood ls := fun l hl => Or.inr (h l hl)
+
+/-- the lines after the string leaves / unit variants of a class satisfy `Q` -/
+def BodyQ (Q : Line → Prop) (P : LeafPred) (T : Toks) (k : Nat) : Prop :=
+  (∀ pos s, P.str s = true → AllQ Q (T.strAt k pos s).2) ∧ (∀ pos e n, P.unit e n = true → AllQ Q (T.unitAt k pos e n).2)
+
+/-- tokens have no lines after them -/
+theorem BodyQ.ofTok {Q : Line → Prop} {P : LeafPred} {T : Toks} (ht : T.IsTok) (k : Nat) : BodyQ Q P T k :=
+  ⟨fun pos s _ => by rw [ht.1]; exact allQ_nil, fun pos e n _ => by rw [ht.2]; exact allQ_nil⟩
 theorem allLay_nil : AllLay [] := fun _ h => absurd h (by simp)
 theorem allLay_safe {s : List Char} (h : isSafeStr s = true) : AllLay s :=
   fun x hx => tok_lineChar (alnum_tok (safe_chars h x hx))
@@ -111,27 +135,27 @@ theorem emptyMapLine_good (i : Nat) : GoodLine ⟨i, "{}".toList⟩ :=
 theorem scalarLine_good {i : Nat} {t : List Char} {p : PVal} (h : ScalarTok t p) : GoodLine ⟨i, t⟩ :=
   ⟨h.ne, h.head, h.chars, h.noMarker⟩
 
-theorem seqValOf_good (e : Bool) {items : List Line} (h : AllGood items) :
-    AllLay (seqValOf e items).1 ∧ AllGood (seqValOf e items).2.1 := by
+theorem seqValOf_good {Q : Line → Prop} (e : Bool) {items : List Line} (h : AllQ Q items) :
+    AllLay (seqValOf e items).1 ∧ AllQ Q (seqValOf e items).2.1 := by
   cases e <;> simp only [seqValOf, if_true, if_false, Bool.false_eq_true]
   · exact ⟨allLay_nil, h⟩
-  · exact ⟨allLay_lit _ (by decide), allGood_nil⟩
+  · exact ⟨allLay_lit _ (by decide), allQ_nil⟩
 
-theorem mapValOf_good (m : Nat) (lvb e : Bool) {entries : List Line} (h : AllGood entries) :
-    AllLay (mapValOf m lvb e entries).1 ∧ AllGood (mapValOf m lvb e entries).2.1 := by
+theorem mapValOf_good {Q : Line → Prop} (hQ : ∀ l, GoodLine l → Q l) (m : Nat) (lvb e : Bool) {entries : List Line} (h : AllQ Q entries) :
+    AllLay (mapValOf m lvb e entries).1 ∧ AllQ Q (mapValOf m lvb e entries).2.1 := by
   cases e <;> cases lvb <;> simp only [mapValOf, if_true, if_false, Bool.false_eq_true]
   · exact ⟨allLay_nil, h⟩
   · exact ⟨allLay_nil, h⟩
-  · exact ⟨allLay_lit _ (by decide), allGood_nil⟩
-  · exact ⟨allLay_nil, AllGood.cons (emptyMapLine_good _) allGood_nil⟩
+  · exact ⟨allLay_lit _ (by decide), allQ_nil⟩
+  · exact ⟨allLay_nil, AllQ.cons (hQ _ (emptyMapLine_good _)) allQ_nil⟩
 
-theorem variantVal_good (m : Nat) {N n : List Char} (hn : KeyTok N n) {r : List Char × List Line × Bool}
-    (hr : AllLay r.1 ∧ AllGood r.2.1) : AllLay (variantVal m N r).1 ∧ AllGood (variantVal m N r).2.1 := by
+theorem variantVal_good {Q : Line → Prop} (hQ : ∀ l, GoodLine l → Q l) (m : Nat) {N n : List Char} (hn : KeyTok N n) {r : List Char × List Line × Bool}
+    (hr : AllLay r.1 ∧ AllQ Q r.2.1) : AllLay (variantVal m N r).1 ∧ AllQ Q (variantVal m N r).2.1 := by
   simp only [variantVal, List.append_assoc, List.singleton_append]
-  exact ⟨allLay_nil, AllGood.cons (keyLine_good hn hr.1) hr.2⟩
+  exact ⟨allLay_nil, AllQ.cons (hQ _ (keyLine_good hn hr.1)) hr.2⟩
 
-theorem variantItem_good {N n : List Char} (hn : KeyTok N n) {r : List Char × List Line × Bool}
-    (hr : AllLay r.1 ∧ AllGood r.2.1) : AllLay (variantItem N r).1 ∧ AllGood (variantItem N r).2.1 := by
+theorem variantItem_good {Q : Line → Prop} {N n : List Char} (hn : KeyTok N n) {r : List Char × List Line × Bool}
+    (hr : AllLay r.1 ∧ AllQ Q r.2.1) : AllLay (variantItem N r).1 ∧ AllQ Q (variantItem N r).2.1 := by
   simp only [variantItem]
   exact ⟨((allLay_key hn).append (allLay_lit [':'] (by decide))).append hr.1, hr.2⟩
 
@@ -139,120 +163,122 @@ theorem allLay_sp {t : List Char} (h : AllLay t) : AllLay (' ' :: t) :=
   AllLay.append (a := [' ']) (allLay_lit _ (by decide)) h
 
 mutual
-theorem lay_val_good {P : LeafPred} {T : Toks} (hr : ReadContract P T) (k : Nat) (cp im : Bool) : ∀ (v : SVal), inFragP P v = true → ∀ (m : Nat) (lvb : Bool),
-    AllLay (layVal T k cp im m lvb v).1 ∧ AllGood (layVal T k cp im m lvb v).2.1
-  | .unit, _, m, lvb => by simp only [layVal]; exact ⟨allLay_lit _ (by decide), allGood_nil⟩
-  | .none, _, m, lvb => by simp only [layVal]; exact ⟨allLay_lit _ (by decide), allGood_nil⟩
-  | .bool b, _, m, lvb => by cases b <;> simp only [layVal] <;> exact ⟨allLay_lit _ (by decide), allGood_nil⟩
+theorem lay_val_good {P : LeafPred} {T : Toks} {k : Nat} {Q : Line → Prop} (hQ : ∀ l, GoodLine l → Q l) (hr : ReadContract P T k)
+    (hb : BodyQ Q P T k) (cp im : Bool) : ∀ (v : SVal), inFragP P v = true → ∀ (m : Nat) (lvb : Bool),
+    AllLay (layVal T k cp im m lvb v).1 ∧ AllQ Q (layVal T k cp im m lvb v).2.1
+  | .unit, _, m, lvb => by simp only [layVal]; exact ⟨allLay_lit _ (by decide), allQ_nil⟩
+  | .none, _, m, lvb => by simp only [layVal]; exact ⟨allLay_lit _ (by decide), allQ_nil⟩
+  | .bool b, _, m, lvb => by cases b <;> simp only [layVal] <;> exact ⟨allLay_lit _ (by decide), allQ_nil⟩
   | .int i, _, m, lvb => by
     simp only [layVal]
-    exact ⟨AllLay.append (a := [' ']) (allLay_lit _ (by decide)) (allLay_tok (intText_plainTok i)), allGood_nil⟩
+    exact ⟨AllLay.append (a := [' ']) (allLay_lit _ (by decide)) (allLay_tok (intText_plainTok i)), allQ_nil⟩
   | .str t, hv, m, lvb => by
     simp only [inFragP] at hv
     simp only [layVal]
-    exact ⟨allLay_sp (allLay_scalar (hr.str t hv)), allGood_nil⟩
+    exact ⟨allLay_sp (hr.str (.val m) t hv).chars, hb.1 (.val m) t hv⟩
   | .unitVariant e n, hv, m, lvb => by
     simp only [inFragP] at hv
     simp only [layVal]
-    exact ⟨allLay_sp (allLay_scalar (hr.unit e n hv)), allGood_nil⟩
-  | .some v, hv, m, lvb => by simp only [inFragP] at hv; simpa [layVal] using lay_val_good hr k cp im v hv m lvb
-  | .newtypeStruct v, hv, m, lvb => by simp only [inFragP] at hv; simpa [layVal] using lay_val_good hr k cp im v hv m lvb
+    exact ⟨allLay_sp (hr.unit (.val m) e n hv).chars, hb.2 (.val m) e n hv⟩
+  | .some v, hv, m, lvb => by simp only [inFragP] at hv; simpa [layVal] using lay_val_good hQ hr hb cp im v hv m lvb
+  | .newtypeStruct v, hv, m, lvb => by simp only [inFragP] at hv; simpa [layVal] using lay_val_good hQ hr hb cp im v hv m lvb
   | .newtypeVariant n v, hv, m, lvb => by
     simp only [inFragP, Bool.and_eq_true] at hv
     simp only [layVal]
-    exact variantVal_good _ (hr.name n hv.1) (lay_val_good hr k cp true v hv.2 _ lvb)
+    exact variantVal_good hQ _ (hr.name n hv.1) (lay_val_good hQ hr hb cp true v hv.2 _ lvb)
   | .tupleVariant n xs, hv, m, lvb => by
     simp only [inFragP, Bool.and_eq_true] at hv
     simp only [layVal]
-    exact variantVal_good _ (hr.name n hv.1) (seqValOf_good _ (lay_items_good hr k cp xs hv.2 _ false))
+    exact variantVal_good hQ _ (hr.name n hv.1) (seqValOf_good _ (lay_items_good hQ hr hb cp xs hv.2 _ false))
   | .structVariant n fs, hv, m, lvb => by
     simp only [inFragP, Bool.and_eq_true] at hv
     simp only [layVal]
-    exact variantVal_good _ (hr.name n hv.1) (mapValOf_good _ _ _ (lay_entries_good hr k cp fs hv.2.1 _ false))
+    exact variantVal_good hQ _ (hr.name n hv.1) (mapValOf_good hQ _ _ _ (lay_entries_good hQ hr hb cp fs hv.2.1 _ false))
   | .seq xs, hv, m, lvb => by
     simp only [inFragP] at hv
     simp only [layVal]
-    exact seqValOf_good _ (lay_items_good hr k cp xs hv _ false)
+    exact seqValOf_good _ (lay_items_good hQ hr hb cp xs hv _ false)
   | .tuple xs, hv, m, lvb => by
     simp only [inFragP] at hv
     simp only [layVal]
-    exact seqValOf_good _ (lay_items_good hr k cp xs hv _ false)
+    exact seqValOf_good _ (lay_items_good hQ hr hb cp xs hv _ false)
   | .tupleStruct xs, hv, m, lvb => by
     simp only [inFragP] at hv
     simp only [layVal]
-    exact seqValOf_good _ (lay_items_good hr k cp xs hv _ false)
+    exact seqValOf_good _ (lay_items_good hQ hr hb cp xs hv _ false)
   | .map known es, hv, m, lvb => by
     simp only [inFragP, Bool.and_eq_true] at hv
     simp only [layVal]
-    exact mapValOf_good _ _ _ (lay_entries_good hr k cp es hv.1 _ false)
+    exact mapValOf_good hQ _ _ _ (lay_entries_good hQ hr hb cp es hv.1 _ false)
   | .flowSeq _, hv, _, _ => by simp [inFragP] at hv
   | .flowMap _, hv, _, _ => by simp [inFragP] at hv
   | .commented _ _, hv, _, _ => by simp [inFragP] at hv
   | .spaceAfter _, hv, _, _ => by simp [inFragP] at hv
   | .litStr _, hv, _, _ => by simp [inFragP] at hv
   | .foldStr _, hv, _, _ => by simp [inFragP] at hv
-theorem lay_item_good {P : LeafPred} {T : Toks} (hr : ReadContract P T) (k : Nat) (cp : Bool) : ∀ (v : SVal), inFragP P v = true → ∀ (d : Nat) (lvb : Bool),
-    AllLay (layItem T k cp d lvb v).1 ∧ AllGood (layItem T k cp d lvb v).2.1
-  | .unit, _, d, lvb => by simp only [layItem]; exact ⟨allLay_lit _ (by decide), allGood_nil⟩
-  | .none, _, d, lvb => by simp only [layItem]; exact ⟨allLay_lit _ (by decide), allGood_nil⟩
-  | .bool b, _, d, lvb => by cases b <;> simp only [layItem] <;> exact ⟨allLay_lit _ (by decide), allGood_nil⟩
-  | .int i, _, d, lvb => by simp only [layItem]; exact ⟨allLay_tok (intText_plainTok i), allGood_nil⟩
+theorem lay_item_good {P : LeafPred} {T : Toks} {k : Nat} {Q : Line → Prop} (hQ : ∀ l, GoodLine l → Q l) (hr : ReadContract P T k)
+    (hb : BodyQ Q P T k) (cp : Bool) : ∀ (v : SVal), inFragP P v = true → ∀ (d : Nat) (lvb : Bool),
+    AllLay (layItem T k cp d lvb v).1 ∧ AllQ Q (layItem T k cp d lvb v).2.1
+  | .unit, _, d, lvb => by simp only [layItem]; exact ⟨allLay_lit _ (by decide), allQ_nil⟩
+  | .none, _, d, lvb => by simp only [layItem]; exact ⟨allLay_lit _ (by decide), allQ_nil⟩
+  | .bool b, _, d, lvb => by cases b <;> simp only [layItem] <;> exact ⟨allLay_lit _ (by decide), allQ_nil⟩
+  | .int i, _, d, lvb => by simp only [layItem]; exact ⟨allLay_tok (intText_plainTok i), allQ_nil⟩
   | .str t, hv, d, lvb => by
     simp only [inFragP] at hv
-    simp only [layItem]; exact ⟨allLay_scalar (hr.str t hv), allGood_nil⟩
+    simp only [layItem]; exact ⟨(hr.str (.item d) t hv).chars, hb.1 (.item d) t hv⟩
   | .unitVariant e n, hv, d, lvb => by
     simp only [inFragP] at hv
-    simp only [layItem]; exact ⟨allLay_scalar (hr.unit e n hv), allGood_nil⟩
-  | .some v, hv, d, lvb => by simp only [inFragP] at hv; simpa [layItem] using lay_item_good hr k cp v hv d lvb
-  | .newtypeStruct v, hv, d, lvb => by simp only [inFragP] at hv; simpa [layItem] using lay_item_good hr k cp v hv d lvb
+    simp only [layItem]; exact ⟨(hr.unit (.item d) e n hv).chars, hb.2 (.item d) e n hv⟩
+  | .some v, hv, d, lvb => by simp only [inFragP] at hv; simpa [layItem] using lay_item_good hQ hr hb cp v hv d lvb
+  | .newtypeStruct v, hv, d, lvb => by simp only [inFragP] at hv; simpa [layItem] using lay_item_good hQ hr hb cp v hv d lvb
   | .newtypeVariant n v, hv, d, lvb => by
     simp only [inFragP, Bool.and_eq_true] at hv
     simp only [layItem]
-    exact variantItem_good (hr.name n hv.1) (lay_val_good hr k cp true v hv.2 _ lvb)
+    exact variantItem_good (hr.name n hv.1) (lay_val_good hQ hr hb cp true v hv.2 _ lvb)
   | .tupleVariant n xs, hv, d, lvb => by
     simp only [inFragP, Bool.and_eq_true] at hv
     simp only [layItem]
-    exact variantItem_good (hr.name n hv.1) (seqValOf_good _ (lay_items_good hr k cp xs hv.2 _ false))
+    exact variantItem_good (hr.name n hv.1) (seqValOf_good _ (lay_items_good hQ hr hb cp xs hv.2 _ false))
   | .structVariant n fs, hv, d, lvb => by
     simp only [inFragP, Bool.and_eq_true] at hv
     simp only [layItem]
-    exact variantItem_good (hr.name n hv.1) (mapValOf_good _ _ _ (lay_entries_good hr k cp fs hv.2.1 _ false))
-  | .seq [], _, d, lvb => by simp only [layItem, laySeqItem]; exact ⟨allLay_lit _ (by decide), allGood_nil⟩
+    exact variantItem_good (hr.name n hv.1) (mapValOf_good hQ _ _ _ (lay_entries_good hQ hr hb cp fs hv.2.1 _ false))
+  | .seq [], _, d, lvb => by simp only [layItem, laySeqItem]; exact ⟨allLay_lit _ (by decide), allQ_nil⟩
   | .seq (x :: xs'), hv, d, lvb => by
     simp only [inFragP, inFragListP, Bool.and_eq_true] at hv
-    obtain ⟨h1, h2⟩ := lay_item_good hr k cp x hv.1 (d + 2) lvb
-    have h3 := lay_items_good hr k cp xs' hv.2 (d + 2) (layItem T k cp (d + 2) lvb x).2.2
+    obtain ⟨h1, h2⟩ := lay_item_good hQ hr hb cp x hv.1 (d + 2) lvb
+    have h3 := lay_items_good hQ hr hb cp xs' hv.2 (d + 2) (layItem T k cp (d + 2) lvb x).2.2
     simp only [layItem, laySeqItem]
     exact ⟨(allLay_lit ['-', ' '] (by decide)).append h1, h2.append h3⟩
-  | .tuple [], _, d, lvb => by simp only [layItem, laySeqItem]; exact ⟨allLay_lit _ (by decide), allGood_nil⟩
+  | .tuple [], _, d, lvb => by simp only [layItem, laySeqItem]; exact ⟨allLay_lit _ (by decide), allQ_nil⟩
   | .tuple (x :: xs'), hv, d, lvb => by
     simp only [inFragP, inFragListP, Bool.and_eq_true] at hv
-    obtain ⟨h1, h2⟩ := lay_item_good hr k cp x hv.1 (d + 2) lvb
-    have h3 := lay_items_good hr k cp xs' hv.2 (d + 2) (layItem T k cp (d + 2) lvb x).2.2
+    obtain ⟨h1, h2⟩ := lay_item_good hQ hr hb cp x hv.1 (d + 2) lvb
+    have h3 := lay_items_good hQ hr hb cp xs' hv.2 (d + 2) (layItem T k cp (d + 2) lvb x).2.2
     simp only [layItem, laySeqItem]
     exact ⟨(allLay_lit ['-', ' '] (by decide)).append h1, h2.append h3⟩
-  | .tupleStruct [], _, d, lvb => by simp only [layItem, laySeqItem]; exact ⟨allLay_lit _ (by decide), allGood_nil⟩
+  | .tupleStruct [], _, d, lvb => by simp only [layItem, laySeqItem]; exact ⟨allLay_lit _ (by decide), allQ_nil⟩
   | .tupleStruct (x :: xs'), hv, d, lvb => by
     simp only [inFragP, inFragListP, Bool.and_eq_true] at hv
-    obtain ⟨h1, h2⟩ := lay_item_good hr k cp x hv.1 (d + 2) lvb
-    have h3 := lay_items_good hr k cp xs' hv.2 (d + 2) (layItem T k cp (d + 2) lvb x).2.2
+    obtain ⟨h1, h2⟩ := lay_item_good hQ hr hb cp x hv.1 (d + 2) lvb
+    have h3 := lay_items_good hQ hr hb cp xs' hv.2 (d + 2) (layItem T k cp (d + 2) lvb x).2.2
     simp only [layItem, laySeqItem]
     exact ⟨(allLay_lit ['-', ' '] (by decide)).append h1, h2.append h3⟩
-  | .map known [], _, d, lvb => by simp only [layItem, layMapItem]; exact ⟨allLay_lit _ (by decide), allGood_nil⟩
+  | .map known [], _, d, lvb => by simp only [layItem, layMapItem]; exact ⟨allLay_lit _ (by decide), allQ_nil⟩
   | .map known ((kk, v) :: es'), hv, d, lvb => by
     simp only [inFragP, inFragEntriesP, Bool.and_eq_true, Bool.or_eq_true] at hv
     rcases hv.1.1.1 with hsk | hck
     · obtain ⟨kt, rfl, hkt⟩ := keyOk_iff hsk
-      obtain ⟨h1, h2⟩ := lay_val_good hr k cp true v hv.1.1.2 (d + 2) false
-      have h3 := lay_entries_good hr k cp es' hv.1.2 (d + 2) (layVal T k cp true (d + 2) false v).2.2
+      obtain ⟨h1, h2⟩ := lay_val_good hQ hr hb cp true v hv.1.1.2 (d + 2) false
+      have h3 := lay_entries_good hQ hr hb cp es' hv.1.2 (d + 2) (layVal T k cp true (d + 2) false v).2.2
       simp only [layItem, layMapItem, keyOf]
       exact ⟨((allLay_key (hr.key kt hkt)).append (allLay_lit [':'] (by decide))).append h1, h2.append h3⟩
-    · obtain ⟨hk1, hk2⟩ := lay_item_good hr k cp kk hck.2 (d + 2) false
-      obtain ⟨h1, h2⟩ := lay_item_good hr k cp v hv.1.1.2 (d + 2) false
-      have h3 := lay_entries_good hr k cp es' hv.1.2 (d + 2) (layItem T k cp (d + 2) false v).2.2
+    · obtain ⟨hk1, hk2⟩ := lay_item_good hQ hr hb cp kk hck.2 (d + 2) false
+      obtain ⟨h1, h2⟩ := lay_item_good hQ hr hb cp v hv.1.1.2 (d + 2) false
+      have h3 := lay_entries_good hQ hr hb cp es' hv.1.2 (d + 2) (layItem T k cp (d + 2) false v).2.2
       simp only [layItem, layMapItem, keyOf_complex' kk hck.1]
       refine ⟨(allLay_lit ['?', ' '] (by decide)).append hk1, ?_⟩
-      have := hk2.append (AllGood.cons (colonLine_good (i := d + 2) h1) (h2.append h3))
+      have := hk2.append (AllQ.cons (hQ _ (colonLine_good (i := d + 2) h1)) (h2.append h3))
       simpa [List.append_assoc] using this
   | .flowSeq _, hv, _, _ => by simp [inFragP] at hv
   | .flowMap _, hv, _, _ => by simp [inFragP] at hv
@@ -260,31 +286,33 @@ theorem lay_item_good {P : LeafPred} {T : Toks} (hr : ReadContract P T) (k : Nat
   | .spaceAfter _, hv, _, _ => by simp [inFragP] at hv
   | .litStr _, hv, _, _ => by simp [inFragP] at hv
   | .foldStr _, hv, _, _ => by simp [inFragP] at hv
-theorem lay_items_good {P : LeafPred} {T : Toks} (hr : ReadContract P T) (k : Nat) (cp : Bool) : ∀ (xs : List SVal), inFragListP P xs = true → ∀ (d : Nat) (lvb : Bool),
-    AllGood (layItems T k cp d lvb xs).1
-  | [], _, d, lvb => by simp only [layItems]; exact allGood_nil
+theorem lay_items_good {P : LeafPred} {T : Toks} {k : Nat} {Q : Line → Prop} (hQ : ∀ l, GoodLine l → Q l) (hr : ReadContract P T k)
+    (hb : BodyQ Q P T k) (cp : Bool) : ∀ (xs : List SVal), inFragListP P xs = true → ∀ (d : Nat) (lvb : Bool),
+    AllQ Q (layItems T k cp d lvb xs).1
+  | [], _, d, lvb => by simp only [layItems]; exact allQ_nil
   | x :: xs, hv, d, lvb => by
     simp only [inFragListP, Bool.and_eq_true] at hv
-    obtain ⟨h1, h2⟩ := lay_item_good hr k cp x hv.1 d lvb
-    have h3 := lay_items_good hr k cp xs hv.2 d (layItem T k cp d lvb x).2.2
+    obtain ⟨h1, h2⟩ := lay_item_good hQ hr hb cp x hv.1 d lvb
+    have h3 := lay_items_good hQ hr hb cp xs hv.2 d (layItem T k cp d lvb x).2.2
     simp only [layItems, List.cons_append, List.nil_append, List.append_assoc]
-    exact AllGood.cons (dashLine_good (itemHead_layItem hr k cp x hv.1 d lvb) h1) (h2.append h3)
-theorem lay_entries_good {P : LeafPred} {T : Toks} (hr : ReadContract P T) (k : Nat) (cp : Bool) : ∀ (es : List (SVal × SVal)), inFragEntriesP P es = true → ∀ (m : Nat) (lvb : Bool),
-    AllGood (layEntries T k cp m lvb es).1
-  | [], _, m, lvb => by simp only [layEntries]; exact allGood_nil
+    exact AllQ.cons (hQ _ (dashLine_good (itemHead_layItem hr cp x hv.1 d lvb) h1)) (h2.append h3)
+theorem lay_entries_good {P : LeafPred} {T : Toks} {k : Nat} {Q : Line → Prop} (hQ : ∀ l, GoodLine l → Q l) (hr : ReadContract P T k)
+    (hb : BodyQ Q P T k) (cp : Bool) : ∀ (es : List (SVal × SVal)), inFragEntriesP P es = true → ∀ (m : Nat) (lvb : Bool),
+    AllQ Q (layEntries T k cp m lvb es).1
+  | [], _, m, lvb => by simp only [layEntries]; exact allQ_nil
   | (kk, v) :: es, hv, m, lvb => by
     simp only [inFragEntriesP, Bool.and_eq_true, Bool.or_eq_true] at hv
     rcases hv.1.1 with hsk | hck
     · obtain ⟨kt, rfl, hkt⟩ := keyOk_iff hsk
-      obtain ⟨h1, h2⟩ := lay_val_good hr k cp true v hv.1.2 m lvb
-      have h3 := lay_entries_good hr k cp es hv.2 m (layVal T k cp true m lvb v).2.2
+      obtain ⟨h1, h2⟩ := lay_val_good hQ hr hb cp true v hv.1.2 m lvb
+      have h3 := lay_entries_good hQ hr hb cp es hv.2 m (layVal T k cp true m lvb v).2.2
       simp only [layEntries, keyOf, List.cons_append, List.nil_append, List.append_assoc, List.singleton_append]
-      exact AllGood.cons (keyLine_good (hr.key kt hkt) h1) (h2.append h3)
-    · obtain ⟨hk1, hk2⟩ := lay_item_good hr k cp kk hck.2 m lvb
-      obtain ⟨h1, h2⟩ := lay_item_good hr k cp v hv.1.2 m false
-      have h3 := lay_entries_good hr k cp es hv.2 m (layItem T k cp m false v).2.2
+      exact AllQ.cons (hQ _ (keyLine_good (hr.key kt hkt) h1)) (h2.append h3)
+    · obtain ⟨hk1, hk2⟩ := lay_item_good hQ hr hb cp kk hck.2 m lvb
+      obtain ⟨h1, h2⟩ := lay_item_good hQ hr hb cp v hv.1.2 m false
+      have h3 := lay_entries_good hQ hr hb cp es hv.2 m (layItem T k cp m false v).2.2
       simp only [layEntries, keyOf_complex' kk hck.1, List.cons_append, List.nil_append, List.append_assoc]
-      exact AllGood.cons (questionLine_good hk1) (hk2.append (AllGood.cons (colonLine_good h1) (h2.append h3)))
+      exact AllQ.cons (hQ _ (questionLine_good hk1)) (hk2.append (AllQ.cons (hQ _ (colonLine_good h1)) (h2.append h3)))
 end
 
 /-! ### text ↔ lines -/
@@ -345,7 +373,17 @@ theorem spaces_lay (n : Nat) : ∀ x ∈ spaces n, lineChar x = true := by
   simp only [spaces, List.mem_replicate] at hx
   rw [hx.2]; decide
 
-theorem lineText_lay {l : Line} (h : GoodLine l) : ∀ x ∈ spaces l.indent ++ l.text, lineChar x = true := by
+theorem LayLine.chars {l : Line} (h : LayLine l) : ∀ x ∈ l.text, lineChar x = true := by
+  rcases h with h | h
+  · exact h.chars
+  · exact h.chars
+
+theorem LayLine.head {l : Line} (h : LayLine l) : l.text.head? ≠ some ' ' := by
+  rcases h with h | h
+  · exact h.head.1
+  · exact h.head
+
+theorem lineText_lay {l : Line} (h : LayLine l) : ∀ x ∈ spaces l.indent ++ l.text, lineChar x = true := by
   intro x hx
   rcases List.mem_append.mp hx with h1 | h1
   · exact spaces_lay _ x h1
@@ -355,36 +393,40 @@ theorem splitNl_render : ∀ (ls : List Line), AllGood ls →
     splitNl (renderLines ls) = ls.map (fun l => spaces l.indent ++ l.text) ++ [[]]
   | [], _ => by rfl
   | l :: ls, h => by
-    have hl : GoodLine l := h l (by simp)
+    have hl : LayLine l := h l (by simp)
     have ih := splitNl_render ls (fun x hx => h x (by simp [hx]))
     simp only [renderLines_cons', List.map_cons, List.cons_append]
     rw [show spaces l.indent ++ l.text ++ ['\n'] ++ renderLines ls = (spaces l.indent ++ l.text) ++ '\n' :: renderLines ls by simp,
       splitNl_line _ _ (fun x hx => layChar_ne (lineText_lay hl x hx) '\n' (by decide)), ih]
 
-theorem mkLine_good {l : Line} (h : GoodLine l) : mkLine (spaces l.indent ++ l.text) = l := by
-  obtain ⟨c, cs, e⟩ : ∃ c cs, l.text = c :: cs := by
-    cases ht : l.text with
-    | nil => exact absurd ht h.ne
-    | cons c cs => exact ⟨c, cs, rfl⟩
-  have hsp : c ≠ ' ' := by
-    have := h.head.1
-    rw [e] at this
-    intro e'; exact this (by simp [e'])
-  have h1 : List.takeWhile (· == ' ') (spaces l.indent ++ l.text) = spaces l.indent := by
-    rw [e]
-    induction l.indent with
-    | zero => simp [spaces, hsp]
+/-- the indentation and the text of a line come back from its rendering when the text does not start with a blank -/
+theorem mkLine_spaces (i : Nat) (t : List Char) (h : t.head? ≠ some ' ') : mkLine (spaces i ++ t) = ⟨i, t⟩ := by
+  have h1 : List.takeWhile (· == ' ') (spaces i ++ t) = spaces i := by
+    induction i with
+    | zero =>
+      cases t with
+      | nil => rfl
+      | cons c cs =>
+        have hc : c ≠ ' ' := fun e => h (by simp [e])
+        simp [spaces, hc]
     | succ n ih => simp only [spaces, List.replicate_succ, List.cons_append] at ih ⊢; simp [ih]
-  have h2 : List.dropWhile (· == ' ') (spaces l.indent ++ l.text) = l.text := by
-    rw [e]
-    induction l.indent with
-    | zero => simp [spaces, hsp]
+  have h2 : List.dropWhile (· == ' ') (spaces i ++ t) = t := by
+    clear h1
+    induction i with
+    | zero =>
+      cases t with
+      | nil => rfl
+      | cons c cs =>
+        have hc : c ≠ ' ' := fun e => h (by simp [e])
+        simp [spaces, hc]
     | succ n ih => simp only [spaces, List.replicate_succ, List.cons_append] at ih ⊢; simp [ih]
+  simp only [mkLine]
+  rw [h1, h2]
+  simp [spaces]
+
+theorem mkLine_good {l : Line} (h : LayLine l) : mkLine (spaces l.indent ++ l.text) = l := by
   cases l with
-  | mk i t =>
-    simp only [mkLine] at h1 h2 ⊢
-    rw [h1, h2]
-    simp [spaces]
+  | mk i t => exact mkLine_spaces i t h.head
 
 theorem render_lay : ∀ (ls : List Line), AllGood ls → ∀ x ∈ renderLines ls, lineChar x = true ∨ x = '\n'
   | [], _, x, hx => by exact absurd hx (by simp [renderLines])
@@ -438,25 +480,55 @@ theorem mu_le_render : ∀ (ls : List Line), mu ls ≤ (renderLines ls).length
 
 /-! ### the root -/
 
+/-- the first line of a document: there is one, it is neither blank nor a comment nor a directive -/
+def FirstLine (ls : List Line) : Prop :=
+  ∃ l rest, ls = l :: rest ∧ l.isSkippable = false ∧ l.text.head? ≠ some '%'
+
+theorem goodLine_notSkippable {l : Line} (h : GoodLine l) : l.isSkippable = false := by
+  obtain ⟨c, cs, e⟩ : ∃ c cs, l.text = c :: cs := by
+    cases ht : l.text with
+    | nil => exact absurd ht h.ne
+    | cons c cs => exact ⟨c, cs, rfl⟩
+  have hne : c ≠ '#' := by
+    have := h.head.2.1
+    rw [e] at this
+    intro e'; exact this (by simp [e'])
+  cases l with
+  | mk i t => simp only at e; subst e; exact notSkippable_of_head hne
+
+theorem FirstLine.ofGood {l : Line} (h : GoodLine l) (rest : List Line) : FirstLine (l :: rest) :=
+  ⟨l, rest, rfl, goodLine_notSkippable h, h.head.2.2⟩
+
+theorem FirstLine.ne {ls : List Line} (h : FirstLine ls) : ls ≠ [] := by
+  obtain ⟨l, rest, rfl, _⟩ := h; simp
+
+/-- the body lines of the strings of the class, as layout lines -/
+theorem ReadContract.layBody {P : LeafPred} {T : Toks} {k : Nat} (hr : ReadContract P T k) : BodyQ LayLine P T k :=
+  ⟨fun pos s h => AllGood.ofBody (hr.str pos s h).body, fun pos e n h => AllGood.ofBody (hr.unit pos e n h).body⟩
+
+theorem LeafOK.goodLine {n : Nat} {r : List Char × List Line} {p : PVal} (h : LeafOK n r p) (i : Nat) : GoodLine ⟨i, r.1⟩ :=
+  ⟨h.ne, h.head, h.chars, h.noMarker⟩
+
 /-- the lines of a root node read as `p` -/
 def RootOK (ls : List Line) (p : PVal) : Prop :=
-  AllGood ls ∧ ls ≠ [] ∧ ∀ fuel, fuel ≥ 2 * mu ls + 2 → blockNode fuel 0 none false ls = some (p, [])
+  AllGood ls ∧ FirstLine ls ∧ ∀ fuel, fuel ≥ 2 * mu ls + 2 → blockNode fuel 0 none false ls = some (p, [])
 
-theorem root_seq {P : LeafPred} {T : Toks} {k : Nat} {cp : Bool} (hr : ReadContract P T) (hk : k ≥ 1) {xs : List SVal} (hv : inFragListP P xs = true) :
+theorem root_seq {P : LeafPred} {T : Toks} {k : Nat} {cp : Bool} (hr : ReadContract P T k) (hk : k ≥ 1) {xs : List SVal} (hv : inFragListP P xs = true) :
     RootOK (if xs.isEmpty then [⟨0, "[]".toList⟩] else (layItems T k cp 0 false xs).1) (.seq (eraseList xs)) := by
   cases xs with
   | nil =>
     simp only [List.isEmpty_nil, if_true, eraseList]
-    refine ⟨AllGood.cons (emptySeqLine_good 0) allGood_nil, by simp, ?_⟩
+    refine ⟨AllGood.cons (emptySeqLine_good 0) allGood_nil, FirstLine.ofGood (emptySeqLine_good 0) _, ?_⟩
     intro fuel hf
     obtain ⟨f', rfl⟩ : ∃ f', fuel = f' + 1 := ⟨fuel - 1, by omega⟩
     exact blockNode_emptySeq f' 0 none false 0 [] (by omega)
   | cons x xs' =>
     have hx : inFragP P x = true := by simp only [inFragListP, Bool.and_eq_true] at hv; exact hv.1
-    have hh := itemHead_layItem hr k cp x hx 0 false
-    have hg := lay_items_good hr k cp (x :: xs') hv 0 false
+    have hh := itemHead_layItem hr cp x hx 0 false
+    have hg := lay_items_good (Q := LayLine) (fun _ h => Or.inl h) hr hr.layBody cp (x :: xs') hv 0 false
+    have h1 := (lay_item_good (Q := LayLine) (fun _ h => Or.inl h) hr hr.layBody cp x hx 0 false).1
     simp only [List.isEmpty_cons, Bool.false_eq_true, if_false]
-    refine ⟨hg, by simp [layItems], ?_⟩
+    refine ⟨hg, by simp only [layItems, List.cons_append]; exact FirstLine.ofGood (dashLine_good hh h1) _, ?_⟩
     intro fuel hf
     obtain ⟨f', rfl⟩ : ∃ f', fuel = f' + 1 := ⟨fuel - 1, by omega⟩
     have hi := read_items (cp := cp) hr hk (x :: xs') hv f' 0 false [] (by omega) (Or.inl rfl)
@@ -469,7 +541,7 @@ theorem root_variant {N n : List Char} (hn : KeyTok N n) {r : List Char × List 
     (hr : ∀ fuel klen, fuel ≥ 2 * (r.1.length + 1 + mu r.2.1) + 2 → valueParse fuel 0 klen r.1 r.2.1 = some (p, [])) :
     RootOK (⟨0, N ++ [':'] ++ r.1⟩ :: r.2.1) (.map [(.str n, p)]) := by
   simp only [List.append_assoc, List.singleton_append]
-  refine ⟨AllGood.cons (keyLine_good hn hg.1) hg.2, by simp, ?_⟩
+  refine ⟨AllGood.cons (keyLine_good hn hg.1) hg.2, FirstLine.ofGood (keyLine_good hn hg.1) _, ?_⟩
   intro fuel hf
   simp only [mu, List.length_append, List.length_cons] at hf
   obtain ⟨f', rfl⟩ : ∃ f', fuel = f' + 3 := ⟨fuel - 3, by omega⟩
@@ -484,44 +556,67 @@ theorem ReadsVal.root {r : Nat → Bool → Bool → List Char × List Line × B
     valueParse fuel 0 klen (r 0 false false).1 (r 0 false false).2.1 = some (p, []) := by
   simpa using h fuel 0 false false klen [] hf (Or.inl rfl)
 
-/-- a leaf at the root: one line, the token -/
-theorem root_leaf {P : LeafPred} {T : Toks} {k : Nat} {cp : Bool} (hr : ReadContract P T) {v : SVal} {tok : List Char}
+/-- a leaf other than a string / a unit variant at the root: one line, the token -/
+theorem root_leaf {P : LeafPred} {T : Toks} {k : Nat} {cp : Bool} (hr : ReadContract P T k) {v : SVal} {tok : List Char}
     (hv : inFragP P v = true) (ht : leafTok T v = some tok) :
-    AllGood (layRoot T k cp v) ∧ layRoot T k cp v ≠ [] ∧
+    AllGood (layRoot T k cp v) ∧ FirstLine (layRoot T k cp v) ∧
     ∀ fuel, fuel ≥ 2 * mu (layRoot T k cp v) + 2 → blockNode fuel 0 none false (layRoot T k cp v) = some (erase v, []) := by
   have hs := leafTok_scalarTok hr hv ht
   have hl : layRoot T k cp v = [⟨0, tok⟩] := by
     cases v <;> simp only [leafTok, Option.some.injEq, reduceCtorEq] at ht <;> subst ht <;> simp [layRoot, leafTok]
   rw [hl]
-  refine ⟨AllGood.cons (scalarLine_good hs) allGood_nil, by simp, ?_⟩
+  refine ⟨AllGood.cons (scalarLine_good hs) allGood_nil, FirstLine.ofGood (scalarLine_good hs) _, ?_⟩
   intro fuel hf
   obtain ⟨f', rfl⟩ : ∃ f', fuel = f' + 1 := ⟨fuel - 1, by omega⟩
   exact hs.read f' 0 none false 0 [] (by omega) (Or.inl rfl)
 
-theorem root_lines {P : LeafPred} {T : Toks} {k : Nat} {cp : Bool} (hr : ReadContract P T) (hk : k ≥ 1) : ∀ (v : SVal), inFragP P v = true →
-    AllGood (layRoot T k cp v) ∧ layRoot T k cp v ≠ [] ∧
+/-- a string at the root: the line of the leaf and the lines after it (the body of a block scalar) -/
+theorem root_str {P : LeafPred} {T : Toks} {k : Nat} {cp : Bool} (hr : ReadContract P T k) {t : List Char} (hv : P.str t = true) :
+    AllGood (layRoot T k cp (.str t)) ∧ FirstLine (layRoot T k cp (.str t)) ∧
+    ∀ fuel, fuel ≥ 2 * mu (layRoot T k cp (.str t)) + 2 → blockNode fuel 0 none false (layRoot T k cp (.str t)) = some (.str t, []) := by
+  have hs := hr.str .root t hv
+  simp only [layRoot]
+  refine ⟨AllQ.cons (Or.inl (hs.goodLine 0)) (hr.layBody.1 .root t hv), FirstLine.ofGood (hs.goodLine 0) _, ?_⟩
+  intro fuel hf
+  obtain ⟨f', rfl⟩ : ∃ f', fuel = f' + 1 := ⟨fuel - 1, by omega⟩
+  simpa [StrPos.minIndent] using hs.read f' none false 0 [] (by simp [StrPos.minIndent]) (Or.inl rfl)
+
+/-- a unit variant at the root -/
+theorem root_unit {P : LeafPred} {T : Toks} {k : Nat} {cp : Bool} (hr : ReadContract P T k) {e n : List Char} (hv : P.unit e n = true) :
+    AllGood (layRoot T k cp (.unitVariant e n)) ∧ FirstLine (layRoot T k cp (.unitVariant e n)) ∧
+    ∀ fuel, fuel ≥ 2 * mu (layRoot T k cp (.unitVariant e n)) + 2 →
+      blockNode fuel 0 none false (layRoot T k cp (.unitVariant e n)) = some (.str n, []) := by
+  have hs := hr.unit .root e n hv
+  simp only [layRoot]
+  refine ⟨AllQ.cons (Or.inl (hs.goodLine 0)) (hr.layBody.2 .root e n hv), FirstLine.ofGood (hs.goodLine 0) _, ?_⟩
+  intro fuel hf
+  obtain ⟨f', rfl⟩ : ∃ f', fuel = f' + 1 := ⟨fuel - 1, by omega⟩
+  simpa [StrPos.minIndent] using hs.read f' none false 0 [] (by simp [StrPos.minIndent]) (Or.inl rfl)
+
+theorem root_lines {P : LeafPred} {T : Toks} {k : Nat} {cp : Bool} (hr : ReadContract P T k) (hk : k ≥ 1) : ∀ (v : SVal), inFragP P v = true →
+    AllGood (layRoot T k cp v) ∧ FirstLine (layRoot T k cp v) ∧
     ∀ fuel, fuel ≥ 2 * mu (layRoot T k cp v) + 2 → blockNode fuel 0 none false (layRoot T k cp v) = some (erase v, [])
   | .unit, hv => root_leaf hr hv rfl
   | .none, hv => root_leaf hr hv rfl
   | .bool b, hv => root_leaf hr hv rfl
   | .int i, hv => root_leaf hr hv rfl
-  | .str t, hv => root_leaf hr hv rfl
-  | .unitVariant e n, hv => root_leaf hr hv rfl
+  | .str t, hv => by simp only [inFragP] at hv; simpa [erase] using root_str (cp := cp) hr hv
+  | .unitVariant e n, hv => by simp only [inFragP] at hv; simpa [erase] using root_unit (cp := cp) hr hv
   | .some v, hv => by simp only [inFragP] at hv; simpa [layRoot, erase] using root_lines hr hk v hv
   | .newtypeStruct v, hv => by simp only [inFragP] at hv; simpa [layRoot, erase] using root_lines hr hk v hv
   | .newtypeVariant n v, hv => by
     simp only [inFragP, Bool.and_eq_true] at hv
-    simpa [layRoot, erase, RootOK] using root_variant (hr.name n hv.1) (r := layVal T k cp false 0 false v) (valHead_layVal hr k cp false v hv.2 0 false)
-      (lay_val_good hr k cp false v hv.2 0 false) (fun fuel klen hf => (read_val (cp := cp) hr hk v hv.2).root fuel klen hf)
+    simpa [layRoot, erase, RootOK] using root_variant (hr.name n hv.1) (r := layVal T k cp false 0 false v) (valHead_layVal hr cp false v hv.2 0 false)
+      (lay_val_good (Q := LayLine) (fun _ h => Or.inl h) hr hr.layBody cp false v hv.2 0 false) (fun fuel klen hf => (read_val (cp := cp) hr hk v hv.2).root fuel klen hf)
   | .tupleVariant n xs, hv => by
     simp only [inFragP, Bool.and_eq_true] at hv
     simpa [layRoot, erase, RootOK] using root_variant (hr.name n hv.1) (r := seqValOf xs.isEmpty (layItems T k cp k false xs).1)
-      (seqValOf_head _ _) (seqValOf_good _ (lay_items_good hr k cp xs hv.2 k false))
+      (seqValOf_head _ _) (seqValOf_good _ (lay_items_good (Q := LayLine) (fun _ h => Or.inl h) hr hr.layBody cp xs hv.2 k false))
       (fun fuel klen hf => by simpa [seqCol] using (reads_seqVal (cp := cp) hr hk hv.2 (read_items hr hk xs hv.2)).root fuel klen (by simpa [seqCol] using hf))
   | .structVariant n fs, hv => by
     simp only [inFragP, Bool.and_eq_true, decide_eq_true_eq] at hv
     simpa [layRoot, erase, RootOK] using root_variant (hr.name n hv.1) (r := mapValOf k false fs.isEmpty (layEntries T k cp k false fs).1)
-      (mapValOf_head _ _ _ _) (mapValOf_good _ _ _ (lay_entries_good hr k cp fs hv.2.1 k false))
+      (mapValOf_head _ _ _ _) (mapValOf_good (fun _ h => Or.inl h) _ _ _ (lay_entries_good (Q := LayLine) (fun _ h => Or.inl h) hr hr.layBody cp fs hv.2.1 k false))
       (fun fuel klen hf => by simpa using (reads_mapVal (cp := cp) hr hk hv.2.1 (by simpa using hv.2.2) (read_entries hr hk fs hv.2.1)).root fuel klen (by simpa using hf))
   | .seq xs, hv => by
     simp only [inFragP] at hv
@@ -537,16 +632,16 @@ theorem root_lines {P : LeafPred} {T : Toks} {k : Nat} {cp : Bool} (hr : ReadCon
     cases es with
     | nil =>
       simp only [layRoot, List.isEmpty_nil, if_true, erase, eraseEntries]
-      refine ⟨AllGood.cons (emptyMapLine_good 0) allGood_nil, by simp, ?_⟩
+      refine ⟨AllGood.cons (emptyMapLine_good 0) allGood_nil, FirstLine.ofGood (emptyMapLine_good 0) _, ?_⟩
       intro fuel hf
       obtain ⟨f', rfl⟩ : ∃ f', fuel = f' + 1 := ⟨fuel - 1, by omega⟩
       exact blockNode_emptyMap f' 0 none false 0 [] (by omega)
     | cons e es' =>
       have hdup : hasDupKey (eraseEntries (e :: es')) = false := by simpa using hv.2
-      have hg := lay_entries_good hr k cp (e :: es') hv.1 0 false
-      obtain ⟨t, ls, he, ht⟩ := layEntries_start hr k cp 0 false (e := e) (es := es') hv.1
+      have hg := lay_entries_good (Q := LayLine) (fun _ h => Or.inl h) hr hr.layBody cp (e :: es') hv.1 0 false
+      obtain ⟨t, ls, he, ht⟩ := layEntries_start hr cp 0 false (e := e) (es := es') hv.1
       simp only [layRoot, List.isEmpty_cons, Bool.false_eq_true, if_false, erase]
-      refine ⟨hg, by rw [he]; simp, ?_⟩
+      refine ⟨hg, by rw [he]; exact ⟨_, _, rfl, ht.notSkippable 0, ht.notPct⟩, ?_⟩
       intro fuel hf
       obtain ⟨f', rfl⟩ : ∃ f', fuel = f' + 1 := ⟨fuel - 1, by omega⟩
       have hi := read_entries (cp := cp) hr hk (e :: es') hv.1 f' 0 false [] (by omega) (Or.inl rfl)
@@ -561,17 +656,64 @@ theorem root_lines {P : LeafPred} {T : Toks} {k : Nat} {cp : Bool} (hr : ReadCon
   | .litStr _, hv => by simp [inFragP] at hv
   | .foldStr _, hv => by simp [inFragP] at hv
 
-theorem goodLine_notSkippable {l : Line} (h : GoodLine l) : l.isSkippable = false := by
-  obtain ⟨c, cs, e⟩ : ∃ c cs, l.text = c :: cs := by
-    cases ht : l.text with
-    | nil => exact absurd ht h.ne
-    | cons c cs => exact ⟨c, cs, rfl⟩
-  have hne : c ≠ '#' := by
-    have := h.head.2.1
-    rw [e] at this
-    intro e'; exact this (by simp [e'])
-  cases l with
-  | mk i t => simp only at e; subst e; exact notSkippable_of_head hne
+/-- all lines of the layout of a root value satisfy `Q`, when the structure lines and the lines after the string
+leaves do (`Q` = `GoodLine` when the strings are tokens, `Q` = `LayLine` in general) -/
+theorem layRoot_good {P : LeafPred} {T : Toks} {k : Nat} {Q : Line → Prop} (hQ : ∀ l, GoodLine l → Q l) (hr : ReadContract P T k)
+    (hb : BodyQ Q P T k) (cp : Bool) : ∀ (v : SVal), inFragP P v = true →
+    AllQ Q (layRoot T k cp v)
+  | .unit, hv => by simpa [layRoot, leafTok] using AllQ.cons (hQ _ (scalarLine_good (i := 0) scalarTok_null)) allQ_nil
+  | .none, hv => by simpa [layRoot, leafTok] using AllQ.cons (hQ _ (scalarLine_good (i := 0) scalarTok_null)) allQ_nil
+  | .bool b, hv => by simpa [layRoot, leafTok] using AllQ.cons (hQ _ (scalarLine_good (i := 0) (scalarTok_bool b))) allQ_nil
+  | .int i, hv => by simpa [layRoot, leafTok] using AllQ.cons (hQ _ (scalarLine_good (i := 0) (scalarTok_int i))) allQ_nil
+  | .str t, hv => by
+    simp only [inFragP] at hv
+    simpa [layRoot] using AllQ.cons (hQ _ ((hr.str .root t hv).goodLine 0)) (hb.1 .root t hv)
+  | .unitVariant e n, hv => by
+    simp only [inFragP] at hv
+    simpa [layRoot] using AllQ.cons (hQ _ ((hr.unit .root e n hv).goodLine 0)) (hb.2 .root e n hv)
+  | .some v, hv => by simp only [inFragP] at hv; simpa [layRoot] using layRoot_good hQ hr hb cp v hv
+  | .newtypeStruct v, hv => by simp only [inFragP] at hv; simpa [layRoot] using layRoot_good hQ hr hb cp v hv
+  | .newtypeVariant n v, hv => by
+    simp only [inFragP, Bool.and_eq_true] at hv
+    obtain ⟨h1, h2⟩ := lay_val_good hQ hr hb cp false v hv.2 0 false
+    simp only [layRoot, List.append_assoc, List.singleton_append]
+    exact AllQ.cons (hQ _ (keyLine_good (hr.name n hv.1) h1)) h2
+  | .tupleVariant n xs, hv => by
+    simp only [inFragP, Bool.and_eq_true] at hv
+    obtain ⟨h1, h2⟩ := seqValOf_good xs.isEmpty (lay_items_good hQ hr hb cp xs hv.2 k false)
+    simp only [layRoot, List.append_assoc, List.singleton_append]
+    exact AllQ.cons (hQ _ (keyLine_good (hr.name n hv.1) h1)) h2
+  | .structVariant n fs, hv => by
+    simp only [inFragP, Bool.and_eq_true] at hv
+    obtain ⟨h1, h2⟩ := mapValOf_good hQ k false fs.isEmpty (lay_entries_good hQ hr hb cp fs hv.2.1 k false)
+    simp only [layRoot, List.append_assoc, List.singleton_append]
+    exact AllQ.cons (hQ _ (keyLine_good (hr.name n hv.1) h1)) h2
+  | .seq xs, hv => by
+    simp only [inFragP] at hv
+    cases xs with
+    | nil => simpa [layRoot] using AllQ.cons (hQ _ (emptySeqLine_good 0)) allQ_nil
+    | cons x xs' => simpa [layRoot] using lay_items_good hQ hr hb cp (x :: xs') hv 0 false
+  | .tuple xs, hv => by
+    simp only [inFragP] at hv
+    cases xs with
+    | nil => simpa [layRoot] using AllQ.cons (hQ _ (emptySeqLine_good 0)) allQ_nil
+    | cons x xs' => simpa [layRoot] using lay_items_good hQ hr hb cp (x :: xs') hv 0 false
+  | .tupleStruct xs, hv => by
+    simp only [inFragP] at hv
+    cases xs with
+    | nil => simpa [layRoot] using AllQ.cons (hQ _ (emptySeqLine_good 0)) allQ_nil
+    | cons x xs' => simpa [layRoot] using lay_items_good hQ hr hb cp (x :: xs') hv 0 false
+  | .map known es, hv => by
+    simp only [inFragP, Bool.and_eq_true] at hv
+    cases es with
+    | nil => simpa [layRoot] using AllQ.cons (hQ _ (emptyMapLine_good 0)) allQ_nil
+    | cons e es' => simpa [layRoot] using lay_entries_good hQ hr hb cp (e :: es') hv.1 0 false
+  | .flowSeq _, hv => by simp [inFragP] at hv
+  | .flowMap _, hv => by simp [inFragP] at hv
+  | .commented _ _, hv => by simp [inFragP] at hv
+  | .spaceAfter _, hv => by simp [inFragP] at hv
+  | .litStr _, hv => by simp [inFragP] at hv
+  | .foldStr _, hv => by simp [inFragP] at hv
 
 /-- no line of the fragment is a directive -/
 theorem goodLine_not_pct {l : Line} (h : GoodLine l) : l.text.head? ≠ some '%' := h.head.2.2
@@ -585,6 +727,14 @@ theorem goodLine_not_marker {l : Line} (h : GoodLine l) :
   constructor
   · unfold isDocMarker; rw [Bool.and_assoc, h1, Bool.and_false]
   · unfold isDocMarker; rw [Bool.and_assoc, h2, Bool.and_false]
+
+/-- … nor is a body line of a block scalar (it is indented) -/
+theorem layLine_not_marker {l : Line} (h : LayLine l) :
+    isDocMarker l "---".toList = false ∧ isDocMarker l "...".toList = false := by
+  rcases h with h | h
+  · exact goodLine_not_marker h
+  · have hi : (l.indent == 0) = false := by have := h.ind; simp; omega
+    simp [isDocMarker, hi]
 
 theorem dropWhile_all {α : Type} (p : α → Bool) : ∀ (l : List α), (∀ x ∈ l, p x = true) → l.dropWhile p = []
   | [], _ => rfl
@@ -612,28 +762,22 @@ theorem readDoc_core (text : List Char) (l : Line) (rest : List Line) (pv : PVal
   rw [hread]
   simp [skipBlank]
 
-/-- Reading a rendered block of good lines = parsing the lines as a root node. -/
-theorem readDoc_of_lines (L : List Line) (pv : PVal) (hg : AllGood L) (hne : L ≠ [])
+/-- Reading a rendered block of layout lines = parsing the lines as a root node. -/
+theorem readDoc_of_lines (L : List Line) (pv : PVal) (hg : AllGood L) (hne : FirstLine L)
     (hread : ∀ fuel, fuel ≥ 2 * mu L + 2 → blockNode fuel 0 none false L = some (pv, [])) :
     readDoc (renderLines L) = some pv := by
-  obtain ⟨l, rest, hL⟩ : ∃ l rest, L = l :: rest := by
-    cases h : L with
-    | nil => exact absurd h hne
-    | cons l rest => exact ⟨l, rest, rfl⟩
-  have hl : GoodLine l := hg l (by rw [hL]; simp)
-  have hpct : (l.text.head? == some '%') = false := by
-    have := goodLine_not_pct hl
-    simpa using this
+  obtain ⟨l, rest, hL, hns, hp⟩ := hne
+  have hpct : (l.text.head? == some '%') = false := by simpa using hp
   have hfuel : 2 * (renderLines L).length + 2 * L.length + 8 ≥ 2 * mu L + 2 := by
     have := mu_le_render L; omega
   refine readDoc_core (renderLines L) l rest pv (takeWhile_noNul _ hg) (by rw [toLines_render _ hg, hL])
-    (goodLine_notSkippable hl) hpct ?_ ?_ ?_
-  · intro x hx; rw [(goodLine_not_marker (hg x (by rw [hL]; exact hx))).2]; rfl
-  · intro x hx; exact (goodLine_not_marker (hg x (by rw [hL]; exact hx))).1
+    hns hpct ?_ ?_ ?_
+  · intro x hx; rw [(layLine_not_marker (hg x (by rw [hL]; exact hx))).2]; rfl
+  · intro x hx; exact (layLine_not_marker (hg x (by rw [hL]; exact hx))).1
   · rw [← hL]; exact hread _ hfuel
 
 /-- The reference reader maps the rendered layout of a fragment value back to `erase v`. -/
-theorem read_layout {P : LeafPred} {T : Toks} {k : Nat} {cp : Bool} (hr : ReadContract P T) (hk : k ≥ 1) (v : SVal) (hv : inFragP P v = true) :
+theorem read_layout {P : LeafPred} {T : Toks} {k : Nat} {cp : Bool} (hr : ReadContract P T k) (hk : k ≥ 1) (v : SVal) (hv : inFragP P v = true) :
     readDoc (renderLines (layRoot T k cp v)) = some (erase v) := by
   obtain ⟨hg, hne, hread⟩ := root_lines hr hk v hv
   exact readDoc_of_lines _ _ hg hne hread
@@ -724,11 +868,11 @@ theorem readDoc_of_lines_pro (L : List Line) (pv : PVal) (hg : AllGood L)
   have hfuel : 2 * (prologueText ++ renderLines L).length + 2 * L.length + 8 ≥ 2 * mu L + 2 := by
     have := mu_le_render L; simp only [List.length_append]; omega
   refine readDoc_core_pro _ L pv hnul (toLines_prologue L hg) ?_ ?_ (hread _ hfuel)
-  · intro x hx; rw [(goodLine_not_marker (hg x hx)).2]; rfl
-  · intro x hx; exact (goodLine_not_marker (hg x hx)).1
+  · intro x hx; rw [(layLine_not_marker (hg x hx)).2]; rfl
+  · intro x hx; exact (layLine_not_marker (hg x hx)).1
 
 /-- The reference reader maps the prologue + rendered layout of a fragment value back to `erase v`. -/
-theorem read_layout_pro {P : LeafPred} {T : Toks} {k : Nat} {cp : Bool} (hr : ReadContract P T) (o : Opts) (hk : k ≥ 1) (v : SVal) (hv : inFragP P v = true) :
+theorem read_layout_pro {P : LeafPred} {T : Toks} {k : Nat} {cp : Bool} (hr : ReadContract P T k) (o : Opts) (hk : k ≥ 1) (v : SVal) (hv : inFragP P v = true) :
     readDoc (prologue o ++ renderLines (layRoot T k cp v)) = some (erase v) := by
   obtain ⟨hg, hne, hread⟩ := root_lines (cp := cp) hr hk v hv
   unfold prologue
